@@ -96,6 +96,87 @@ Proof.
   rewrite N2Z.inj_div, N2Z.inj_mul. reflexivity.
 Qed.
 
+(* ---- RouteTimeout's scan of the run's events keeps the FIRST wait_timed_out time ------------------------------- *)
+
+Lemma scan_timeouts_first times : scan_timeouts times = hd zero_time_text times.
+Proof.
+  unfold scan_timeouts. destruct times as [|t rest]; [reflexivity|].
+  cbn [rev hd]. rewrite fold_left_app. reflexivity.
+Qed.
+
+(* ---- fmt.Sprintf("%d", n): N_to_text n is a decimal numeral of n ------------------------------------------------ *)
+
+(* the number a list of ASCII digits denotes (most significant first), continuing from a *)
+Fixpoint digits_value (a : N) (t : text) : N :=
+  match t with
+  | [] => a
+  | c :: rest => digits_value (10 * a + (c - 48)) rest
+  end.
+
+Definition is_digit (c : N) : Prop := 48 <= c <= 57.
+
+Lemma digits_value_shift a t : digits_value a t = a * 10 ^ N.of_nat (length t) + digits_value 0 t.
+Proof.
+  revert a. induction t as [|c rest IH]; intros a.
+  - cbn [digits_value length N.of_nat]. rewrite N.pow_0_r. lia.
+  - cbn [digits_value length]. rewrite (IH (10 * a + (c - 48))), (IH (10 * 0 + (c - 48))).
+    rewrite Nat2N.inj_succ, N.pow_succ_r'. lia.
+Qed.
+
+Lemma digits_fuel_value fuel : forall n acc,
+  n < 2 ^ N.of_nat fuel ->
+  digits_value 0 (digits_fuel fuel n acc) = n * 10 ^ N.of_nat (length acc) + digits_value 0 acc.
+Proof.
+  induction fuel as [|f IH]; intros n acc Hn.
+  - cbn [N.of_nat] in Hn. rewrite N.pow_0_r in Hn. assert (n = 0) by lia. subst n. cbn [digits_fuel]. lia.
+  - cbn [digits_fuel].
+    pose proof (N.div_mod n 10 ltac:(lia)) as Hdm. pose proof (N.mod_lt n 10 ltac:(lia)) as Hlt.
+    destruct (N.eqb (n / 10) 0) eqn:E.
+    + apply N.eqb_eq in E. cbn [digits_value]. rewrite digits_value_shift.
+      replace (10 * 0 + (48 + n mod 10 - 48)) with n by lia. reflexivity.
+    + apply N.eqb_neq in E. rewrite IH.
+      * cbn [length digits_value]. rewrite (digits_value_shift (10 * 0 + (48 + n mod 10 - 48)) acc).
+        rewrite Nat2N.inj_succ, N.pow_succ_r'.
+        replace (10 * 0 + (48 + n mod 10 - 48)) with (n mod 10) by lia.
+        generalize dependent (10 ^ N.of_nat (length acc)). intros p. generalize (digits_value 0 acc). intros q.
+        rewrite Hdm at 3. lia.
+      * rewrite Nat2N.inj_succ, N.pow_succ_r' in Hn.
+        apply N.div_lt_upper_bound; [lia|]. lia.
+Qed.
+
+Lemma digits_fuel_digits fuel : forall n acc, Forall is_digit acc -> Forall is_digit (digits_fuel fuel n acc).
+Proof.
+  induction fuel as [|f IH]; intros n acc Hacc; cbn [digits_fuel]; [exact Hacc|].
+  pose proof (N.mod_lt n 10 ltac:(lia)) as Hlt.
+  assert (Hd : Forall is_digit ((48 + n mod 10) :: acc)) by (constructor; [unfold is_digit; lia|exact Hacc]).
+  destruct (N.eqb (n / 10) 0); [exact Hd|apply IH; exact Hd].
+Qed.
+
+(* N_to_text n consists of ASCII digits and denotes n *)
+Lemma N_to_text_spec n : Forall is_digit (N_to_text n) /\ digits_value 0 (N_to_text n) = n.
+Proof.
+  unfold N_to_text. split; [apply digits_fuel_digits; constructor|].
+  rewrite digits_fuel_value.
+  - cbn [length N.of_nat digits_value]. rewrite N.pow_0_r. lia.
+  - rewrite Nat2N.inj_succ, N2Nat.id. destruct (N.eq_dec n 0) as [->|Hnz]; [reflexivity|].
+    apply N.log2_spec. lia.
+Qed.
+
+Example N_to_text_examples :
+  N_to_text 0 = [48] /\ N_to_text 9 = [57] /\ N_to_text 10 = [49; 48] /\ N_to_text 205 = [50; 48; 53]
+  /\ N_to_text 1234567890123 = [49;50;51;52;53;54;55;56;57;48;49;50;51].
+Proof. repeat split; reflexivity. Qed.
+
+(* Decimal.String(): 0.7, 0.05 (trailing zero dropped), 0, 12 (from 12.00), 0.3125, 1.5 *)
+Example draw_text_examples :
+  draw_text {| d_mant := 7; d_scale := 1 |} = [48; 46; 55]
+  /\ draw_text {| d_mant := 50; d_scale := 3 |} = [48; 46; 48; 53]
+  /\ draw_text {| d_mant := 0; d_scale := 0 |} = [48]
+  /\ draw_text {| d_mant := 1200; d_scale := 2 |} = [49; 50]
+  /\ draw_text {| d_mant := 3125; d_scale := 4 |} = [48; 46; 51; 49; 50; 53]
+  /\ draw_text {| d_mant := 15; d_scale := 1 |} = [49; 46; 53].
+Proof. repeat split; reflexivity. Qed.
+
 Section Proofs.
 
 Variable value : Type.
@@ -1142,6 +1223,70 @@ Proof.
   - destruct (find_exit (n_exits nd) _); cbn [po_exit po_operand] in *; [reflexivity|discriminate].
 Qed.
 
+(* the value of a timeout result: RouteTimeout's scan hands on the time of the run's FIRST wait_timed_out event (not
+   of the timeout being handled when the run timed out before; the statement of C07 does not speak about this value) *)
+Lemma timeout_value_spec site flow_nodes nd r d times prev u c :
+  n_router nd = Some r ->
+  b_timeout (router_base r) = Some u -> category_with (router_base r) u c -> c_exit c <> no_uuid ->
+  b_result_name (router_base r) <> [] ->
+  let v := visit' site flow_nodes nd true d (scan_timeouts times) prev in
+  vo_saved v = Some (result_for (router_base r) c (hd zero_time_text times) [] None).
+Proof.
+  intros Hr Ht Hcat Hex Hn. cbn zeta.
+  destruct (timeout_spec site flow_nodes nd r d (scan_timeouts times) prev u c Hr Ht Hcat Hex)
+    as (_ & _ & _ & Hs & _).
+  rewrite Hs. unfold named. destruct (b_result_name (router_base r)); [contradiction|].
+  rewrite scan_timeouts_first. reflexivity.
+Qed.
+
+(* "leaves by": whatever exit a router answers is the exit of the step, also when nothing is saved *)
+Lemma leaves_spec site flow_nodes nd r is_timeout d timed_out_on prev u op :
+  n_router nd = Some r ->
+  ro_res (router_out r is_timeout d timed_out_on prev) = RExit u op -> u <> no_uuid ->
+  let out := router_out r is_timeout d timed_out_on prev in
+  let v := visit' site flow_nodes nd is_timeout d timed_out_on prev in
+  vo_outcome v = NLeft /\ vo_step_exit v = u /\ vo_saved v = ro_saved out /\ vo_events v = ro_events out
+  /\ (forall e, exit_with nd u e ->
+        vo_segment v = if negb (N.eqb (e_dest e) no_uuid) && existsb (N.eqb (e_dest e)) flow_nodes
+                       then Some (u, (if is_timeout then [] else op), e_dest e) else None)
+  /\ ((forall e, ~ exit_with nd u e) -> vo_segment v = None).
+Proof.
+  intros Hr Hres Hne. cbn zeta. unfold visit.
+  rewrite (pick_left nd r is_timeout d timed_out_on prev u op Hr Hres Hne).
+  cbn [po_kind po_step_exit po_saved po_events vo_outcome vo_step_exit vo_saved vo_events vo_segment].
+  split; [reflexivity|]. split; [reflexivity|]. split; [reflexivity|]. split; [reflexivity|]. split.
+  - intros e He. apply exit_with_find in He. unfold segment_of. cbn [po_exit po_operand]. rewrite He.
+    apply find_exit_In in He. destruct He as [_ Hu]. rewrite Hu. reflexivity.
+  - intros Hno. unfold segment_of. cbn [po_exit].
+    destruct (find_exit (n_exits nd) u) as [e|] eqn:He; [|reflexivity].
+    exfalso. apply (Hno e). apply exit_with_find. exact He.
+Qed.
+
+(* a deciding case without a category (rejected by Validate): the default is taken with the operand as value, but the
+   case's extra survives; without default no category *)
+Lemma case_without_category_spec b operand_tpl cases default prev pre c post m x mt :
+  let operand := operand_of operand_tpl in
+  let input := operand_text operand_tpl in
+  let R := route_switch' b operand_tpl cases default prev in
+  cases = pre ++ c :: post -> Forall (passed_over operand) pre -> matches operand c m x ->
+  opt_to_xtext value to_xtext m = Some mt -> k_cat c = no_uuid ->
+  let evs := operand_events operand_tpl ++ flat_map (skip_events operand) pre ++ arg_events c ++ extra_events c x in
+  (default = no_uuid -> R = {| ro_res := RExit no_uuid input; ro_saved := None; ro_events := evs |})
+  /\ (forall cat, category_with b default cat ->
+      R = through b prev cat input input (extra_json x) (evs ++ default_events operand_tpl)).
+Proof.
+  cbn zeta. intros Hc Hpre Hm Hmt Hk.
+  split.
+  - intros Hd.
+    destruct (route_switch_case_without_category b operand_tpl cases default prev pre c post m x mt
+                {| c_uuid := 0; c_name := []; c_exit := 0; c_tr_name := [] |} Hc Hpre Hm Hmt Hk) as [H1 _].
+    apply H1. exact Hd.
+  - intros cat Hcat. apply category_with_find in Hcat. destruct Hcat as [Hne Hf].
+    destruct (route_switch_case_without_category b operand_tpl cases default prev pre c post m x mt cat
+                Hc Hpre Hm Hmt Hk) as [_ H2].
+    apply H2; assumption.
+Qed.
+
 End Proofs.
 
 (* ======================================================================================================== *)
@@ -1290,6 +1435,27 @@ Proof.
   { constructor; [split; [reflexivity|left; reflexivity]|constructor]. }
   repeat split.
 Qed.
+
+(* a run that timed out twice: the second timeout result still carries the time of the first timeout *)
+Example second_timeout_records_first :
+  scan_timeouts [[49]; [50]] = [49]
+  /\ vo_saved (visit N ev tx reg tst lc0 640 AtResume [31; 32] (nd0 13) true d0 (scan_timeouts [[49]; [50]]) None)
+     = Some (result_for lc0 640 b0 (cat 12 66 22) [49] [] None).
+Proof. split; reflexivity. Qed.
+
+(* a node left by a router that saves nothing *)
+Example leaves_hypotheses :
+  let b := {| b_result_name := []; b_categories := b_categories b0; b_timeout := None |} in
+  let r := Switch b [5] cases0 13 in
+  ro_res (router_out N ev tx reg tst lc0 640 r false d0 [] None) = RExit 22 [5] /\ 22 <> no_uuid
+  /\ ro_saved (router_out N ev tx reg tst lc0 640 r false d0 [] None) = None.
+Proof. cbn zeta. repeat split. discriminate. Qed.
+
+(* a deciding case without category *)
+Example case_without_category_hypotheses :
+  matches N ev reg tst lc0 5 (kase 2 5 no_uuid) (Some 7) ExAbsent /\ k_cat (kase 2 5 no_uuid) = no_uuid
+  /\ ro_res (route_switch N ev tx reg tst lc0 640 b0 [5] [kase 2 5 no_uuid] 13 None) = RExit 23 [5].
+Proof. repeat split. Qed.
 
 End Demo.
 
